@@ -715,7 +715,7 @@ def line_info(text: str | bytes) -> list[dict]:
     for kind, cls, s, e, t, q in leaves:
         ln = line_of(s)
         first_on_line = b[line_starts[ln]:s].strip(b" ") == b""
-        if first_on_line and ln not in seen_lines and ln > skip_until and q == 0:
+        if first_on_line and ln not in seen_lines and ln > skip_until and (q == 0 or b[s:e] in (b"''", b"\"")):
             seen_lines.add(ln)
             txt = b[s:e].decode("utf-8", "replace")
             rec = {"ind": s - line_starts[ln], "open_ind": 0, "kind": "code", "n": ln, "at": s}
